@@ -138,11 +138,24 @@ bool DecodingTable::getSubstring(ChunkScan *c) {
       return false;
     } else {
       if (endings->getBit(index)) {
-        uint substrLen = strlen((char *)&(stream[position])) + 1;
+        // The first two symbols extracted for a string can be the VByte of its
+        // shared-prefix length, whose low byte is 0 for multiples of 128: only
+        // a zero after them ends the string
+        uint before = c->extracted - x.length;
+        uint skip = (before < 2) ? (2 - before) : 0;
+        uint substrLen = skip;
+        while ((substrLen < x.length) && (stream[position + substrLen] != 0))
+          substrLen++;
 
-        c->strLen += substrLen;
-        c->advanced = x.length - substrLen;
-        return true;
+        if (substrLen < x.length) {
+          substrLen++;
+          c->strLen += substrLen;
+          c->advanced = x.length - substrLen;
+          return true;
+        }
+
+        c->strLen += x.length;
+        return false;
       } else {
         c->strLen += x.length;
         return false;
